@@ -187,7 +187,11 @@ class ABI:
 
         for read in constraints.reads_registers:
             reg = self.get_register(read)
-            available_scratch_registers.remove(reg)
+            # The register may not be available any more: it can also be
+            # clobbered, be named twice (e.g. as eax and ax), or not be a
+            # register that we hand out as scratch in the first place.
+            if reg in available_scratch_registers:
+                available_scratch_registers.remove(reg)
 
         if constraints.scratch_registers > len(available_scratch_registers):
             raise ValueError("unable to allocate enough scratch registers")
